@@ -19,7 +19,7 @@ git -C /repo worktree remove --force $wt
 echo "demo without patch: exit=$before (want 0); demo with patch: exit=$after (want !=0); suite with patch: exit=$suite (want 0)"
 if [ -n "$(git -C /repo status --porcelain)" ]; then echo "/repo not clean, refusing"; exit 3; fi
 git -C /repo apply $seed/patch.diff || exit 3
-VERIF_EVIDENCE_DIR=/tmp/seed_evidence /verif/bin/vcheck run $prop --tier $tier > /tmp/eval_check.log 2>&1; rc=$?
+VERIF_EVIDENCE_DIR=/tmp/seed_evidence /verif/bin/vcheck run $prop --tier $tier -workers ${VERIF_WORKERS:-16} > /tmp/eval_check.log 2>&1; rc=$?
 git -C /repo checkout -- . 
 grep -E "^(VIOLATION|  case|KNOWN|INCONCLUSIVE|UNCONF|property=)" /tmp/eval_check.log | cut -c1-220 | sort | uniq -c | sort -rn | head -8
 echo "check exit=$rc"
